@@ -208,7 +208,11 @@ def main(argv=None):
 
     rep_dir = os.path.join(VERIF_ROOT, "replays")
     lines = []
-    if new_viol:
+    if new_viol and a.replay:
+        for v in new_viol[:10]:
+            lines.append(f"VIOLATION property={pid} replay={a.replay}")
+            lines.append(f"  key={v['key']} what={v['what']}")
+    elif new_viol:
         os.makedirs(rep_dir, exist_ok=True)
         shown = {}
         for i, v in enumerate(new_viol):
